@@ -79,7 +79,9 @@ def key_usage_bits(names):
     return v
 
 
-def ext_key_usage(names, critical=True):
+def ext_key_usage(names, critical=True, padding=()):
+    """padding: usages whose bit is set behind the last declared bit, i.e. inside the unused bits of the final octet - not part of the
+    bit string (X.690 8.6.2.3; DER wants them zero)"""
     bits = key_usage_bits(names)
     # named bit list: bit 0 is the most significant bit of the first octet; trailing zero bits removed
     nbits = bits.bit_length() or 1
@@ -88,6 +90,10 @@ def ext_key_usage(names, critical=True):
         if bits >> i & 1:
             buf[i // 8] |= 0x80 >> (i % 8)
     unused = (8 - nbits % 8) % 8
+    for n in padding:
+        i = KU[n]
+        if nbits <= i < 8 * len(buf):
+            buf[i // 8] |= 0x80 >> (i % 8)
     return ext("keyUsage", critical, D.enc_bits(bytes(buf), unused))
 
 
